@@ -7,7 +7,7 @@ does (layout, length checks, use of the authenticator verdict, parameter encodin
 selection) is proved for ALL inputs. The strength of `secretbox` / `scrypt` / `sha256` enters only through the
 hypotheses `AEAD.Correct` (functional, true of secretbox by construction), `AEAD.Binding`, `AEAD.Distance`,
 `KDF.Binding` (idealised cryptographic assumptions; see Lemmas/Crypto.lean). `Toy.aead` is proved to satisfy
-`Correct` and `Binding` (non-vacuity); the `example`s below instantiate the theorems with it.
+`Correct`, `Binding` and `Distance` (non-vacuity); the `example`s below instantiate the theorems with it.
 
 FINDING (real code and model agree, property false as literally stated): `DeriveKey` accepts every passphrase with
 the same HMAC-SHA256 key block as the creating one, e.g. the passphrase followed by NUL bytes
@@ -317,6 +317,13 @@ theorem C17_counterexample_trailing_nul (K : KDF) (salt pass : Bytes) (N R P : I
     simp at this
   · simp [SecretKey.deriveKey, SecretKey.deriveKeyRaw, SecretKey.zero, hc, hmacBlock_trailing_nul K.hash pass hl]
 
+/-- On passphrases of at most 64 bytes that do not end in NUL, the HMAC key block determines the passphrase: these
+are the passphrases for which "only the exact passphrase" can (and, by `C17_derive_wrong_pass_partial`, does) hold. -/
+theorem C17_hmacBlock_inj (hash : Bytes → Bytes) (p p' : Bytes) (hl : p.length ≤ 64) (hl' : p'.length ≤ 64)
+    (hz : p.getLast? ≠ some 0) (hz' : p'.getLast? ≠ some 0) (h : hmacBlock hash p = hmacBlock hash p') : p = p' := by
+  unfold hmacBlock hmacBlockSize at h
+  rw [if_neg (by omega), if_neg (by omega)] at h
+  exact pad_inj p p' _ _ h hz hz'
 /-! ## waddrmgr.Manager.Encrypt / Decrypt -/
 
 theorem C17_mgr_roundtrip (A : AEAD) (hA : A.Correct) (m : Mgr) (kt : Nat) (n msg c : Bytes)
@@ -382,10 +389,82 @@ theorem C17_mgr_unlock_failure_locks (A : AEAD) (K : KDF) (m : Mgr) (pass : Byte
       · rename_i k hk
         simp [hlk, hsk, hk] at h
 
+/-- Restart + unlock: what `Create` stored re-opens with the public passphrase (locked, public crypto key restored,
+private one zero) and `Unlock` with the private passphrase restores exactly the private crypto key that was created. -/
+theorem C17_mgr_restart_unlock (A : AEAD) (hA : A.Correct) (K : KDF) (hH : ∀ x, (K.hash x).length = digestSize)
+    (r : CreateRand) (pubPass privPass : Bytes) (N R P : Int)
+    (hN : -(two63 : Int) ≤ N ∧ N < (two63 : Int)) (hR : -(two63 : Int) ≤ R ∧ R < (two63 : Int))
+    (hP : -(two63 : Int) ≤ P ∧ P < (two63 : Int))
+    (hs1 : r.saltPub.length = keySize) (hs2 : r.saltPriv.length = keySize)
+    (hn1 : r.nPub.length = nonceSize) (hn2 : r.nPriv.length = nonceSize)
+    (d : MgrDisk) (h : Mgr.create A K r pubPass (some privPass) N R P = .ok d) :
+    ∃ m, Mgr.open_ A K d pubPass = .ok m ∧ m.locked = true ∧ m.cryptoKeyPub = r.keyPub ∧ m.cryptoKeyPriv = zeroKey ∧
+      ∃ m', m.unlock A K privPass = (m', .ok ()) ∧ m'.locked = false ∧ m'.cryptoKeyPriv = r.keyPriv ∧
+        m'.cryptoKeyPub = r.keyPub := by
+  unfold Mgr.create at h
+  cases h1 : newSecretKey K r.saltPub pubPass N R P with
+  | error e => simp [h1] at h
+  | ok mPub =>
+    cases h2 : newSecretKey K r.saltPriv privPass N R P with
+    | error e => simp [h1, h2] at h
+    | ok mPriv =>
+      simp only [h1, h2, Except.ok.injEq] at h
+      subst h
+      obtain ⟨u1, d1⟩ := C17_derive_restart K hH r.saltPub pubPass N R P mPub hs1 hN hR hP h1
+      obtain ⟨u2, d2⟩ := C17_derive_restart K hH r.saltPriv privPass N R P mPriv hs2 hN hR hP h2
+      have r1 : mPub.decrypt A (mPub.encryptWith A r.nPub r.keyPub) = .ok r.keyPub :=
+        C17_roundtrip A hA r.nPub mPub.key r.keyPub hn1
+      have r2 : mPriv.decrypt A (mPriv.encryptWith A r.nPriv r.keyPriv) = .ok r.keyPriv :=
+        C17_roundtrip A hA r.nPriv mPriv.key r.keyPriv hn2
+      have ho : Mgr.open_ A K
+          { watchOnly := false, masterPubParams := mPub.marshal, masterPrivParams := mPriv.marshal,
+            cryptoKeyPubEnc := mPub.encryptWith A r.nPub r.keyPub,
+            cryptoKeyPrivEnc := mPriv.encryptWith A r.nPriv r.keyPriv,
+            cryptoKeyScriptEnc := mPriv.encryptWith A r.nScript r.keyScript } pubPass =
+          .ok
+              { watchOnly := false, locked := true, masterKeyPub := mPub, masterKeyPriv := mPriv.zero,
+                cryptoKeyPub := r.keyPub, cryptoKeyPrivEncrypted := mPriv.encryptWith A r.nPriv r.keyPriv,
+                cryptoKeyPriv := zeroKey, cryptoKeyScriptEncrypted := mPriv.encryptWith A r.nScript r.keyScript,
+                cryptoKeyScript := zeroKey, privPass := none } := by
+        unfold Mgr.open_
+        simp only [Bool.false_eq_true, if_false, u1, u2, d1, r1]
+      refine ⟨_, ho, rfl, rfl, rfl, ?_⟩
+      refine ⟨
+              { watchOnly := false, locked := false, masterKeyPub := mPub, masterKeyPriv := mPriv,
+                cryptoKeyPub := r.keyPub, cryptoKeyPrivEncrypted := mPriv.encryptWith A r.nPriv r.keyPriv,
+                cryptoKeyPriv := r.keyPriv, cryptoKeyScriptEncrypted := mPriv.encryptWith A r.nScript r.keyScript,
+                cryptoKeyScript := zeroKey, privPass := some privPass }, ?_, rfl, rfl, rfl⟩
+      unfold Mgr.unlock
+      simp only [Bool.false_eq_true, if_false, Bool.not_true, d2, r2]
+/-- A private passphrase with a different key block: ErrWrongPassphrase, manager locked, private keys zero.
+`_partial` for the same reason as `C17_derive_wrong_pass_partial`. -/
+theorem C17_mgr_unlock_wrong_pass_partial (A : AEAD) (K : KDF) (B : Bytes → Prop) (salt pass pass' : Bytes) (N R P : Int)
+    (hB : K.Binding salt N R P B) (hb : B (hmacBlock K.hash pass)) (hb' : B (hmacBlock K.hash pass'))
+    (hne : hmacBlock K.hash pass' ≠ hmacBlock K.hash pass)
+    (mPriv : SecretKey) (h : newSecretKey K salt pass N R P = .ok mPriv)
+    (m : Mgr) (hw : m.watchOnly = false) (hl : m.locked = true) (hp : m.masterKeyPriv.params = mPriv.params) :
+    (m.unlock A K pass').2 = .error .wrongPassphrase ∧ (m.unlock A K pass').1.locked = true ∧
+    (m.unlock A K pass').1.cryptoKeyPriv = zeroKey ∧ (m.unlock A K pass').1.masterKeyPriv.key = zeroKey := by
+  have hd := (C17_derive_wrong_pass_partial K B salt pass pass' N R P hB hb hb' hne mPriv m.masterKeyPriv h hp).1
+  unfold Mgr.unlock
+  simp only [hw, hl, Bool.false_eq_true, if_false, Bool.not_true]
+  cases hr : m.masterKeyPriv.deriveKey K pass' with
+  | mk sk res =>
+    rw [hr] at hd
+    simp only at hd
+    subst hd
+    simp [Mgr.lock, SecretKey.zero]
 /-! ## Non-vacuity: the hypotheses are satisfiable (toy instance), and a concrete evaluation -/
 
 example : Toy.aead.Correct := Toy.aead_correct
 example : Toy.aead.Binding Toy.GoodKey := Toy.aead_binding
+example (k : Bytes) : Toy.aead.Distance k := Toy.aead_distance k
+
+/-- every bit flip / truncation theorem instantiates on the toy, for every key, nonce, message, position. -/
+example (k n m : Bytes) (hn : n.length = nonceSize) (hm : m.length < maxLen) (i : Nat)
+    (hi : i < 8 * (encryptWith Toy.aead n k m).length) :
+    decrypt Toy.aead k (flipBit (encryptWith Toy.aead n k m) i) = .error .decryptFailed :=
+  C17_tamper_bitflip _ Toy.aead_correct k (Toy.aead_distance k) n m hn hm i hi
 
 /-- the theorems instantiate: round trip and wrong key on the toy, for all messages/nonces. -/
 example (n m : Bytes) (hn : n.length = nonceSize) :
@@ -404,5 +483,18 @@ example : (KDF.mk (fun b _ _ _ _ => b) id).Binding [] 16 8 1 (fun _ => True) := 
 example : ({ salt := List.replicate 32 7, digest := List.replicate 32 9, N := -1, R := 9223372036854775807,
              P := -9223372036854775808 } : Params).WF := by
   constructor <;> decide
+
+/-- the byte layout on a concrete value: salt ‖ digest ‖ N ‖ R ‖ P, little endian (N = 16384 = 0x4000). -/
+example : marshal { salt := List.replicate 32 0xaa, digest := List.replicate 32 0xbb, N := 16384, R := 8, P := 1 }
+    = List.replicate 32 0xaa ++ List.replicate 32 0xbb ++ [0, 0x40, 0, 0, 0, 0, 0, 0] ++ [8, 0, 0, 0, 0, 0, 0, 0]
+      ++ [1, 0, 0, 0, 0, 0, 0, 0] := by decide
+
+/-- negative N is stored as its two's complement. -/
+example : leBytes 8 (toU64 (-2)) = [0xfe, 0xff, 0xff, 0xff, 0xff, 0xff, 0xff, 0xff] := by decide
+
+/-- scrypt's parameter check on the production and test parameters, and the divide-by-zero quirk. -/
+example : scryptCheck 16384 8 1 = .ok ∧ scryptCheck 16 8 1 = .ok := by decide
+example : scryptCheck 16 0 1 = .panic ∧ scryptCheck 16 8 0 = .panic ∧ scryptCheck 15 8 1 = .err ∧
+    scryptCheck 16 (-1) (-1) = .err := by decide
 
 end Crypto
